@@ -1271,6 +1271,10 @@ func init() {
 			return false
 		}
 		m.engine = pick(m.r, "invalid", "error", "none")
+		m.note = "engine_" + m.engine
+		if m.engine == "none" {
+			m.note = "engine_missing"
+		}
 		if m.engine != "none" {
 			m.engineAt = m.r.Intn(3) - 1
 			if m.p.Fork < Deneb && m.engineAt == 2 {
@@ -1294,7 +1298,7 @@ func init() {
 		return true
 	})
 	// ---------- limits (not representable in SSZ: the list limit equals the per-block maximum) ----------
-	mut("over_limit", "decode|limits", func(m *mctx) bool {
+	mut("over_limit", "", func(m *mctx) bool {
 		b := m.p.B
 		sp := m.c.Spec
 		rep := func(n uint64, have int, app func()) bool {
@@ -1457,7 +1461,6 @@ func (c *Chain) emitCorrupt(m *mctx, mu *mutator, hs HonestStep, pre common.Beac
 	}
 	sb := b.Signed()
 	raw := EncodeObj(sp, sb)
-	blkID := c.Rec.BlockBytes(b.Fork, raw)
 	tag := "kind=corrupt corrupt=" + mu.name
 	if m.note != "" {
 		tag += " variant=" + m.note
@@ -1469,15 +1472,18 @@ func (c *Chain) emitCorrupt(m *mctx, mu *mutator, hs HonestStep, pre common.Beac
 	if m.validate {
 		v = 1
 	}
-	// the blob must decode (the model reads bytes)
+	blkID := c.Rec.BlockBytes(b.Fork, raw)
+	// the blob must decode (the model reads bytes); when it does not, that is a `baddecode` record, not a transition
 	dec, derr := DecodeBlock(sp, b.Fork, raw)
 	var res RunResult
 	if derr != nil {
-		res.Err = fmt.Errorf("decode: %v", derr)
-		tag += " decode=fail"
-	} else {
-		res = RunTransition(sp, pre, nil, dec, b.Fork, m.validate, m.engine, m.engineAt, -1)
+		c.Rec.Line("baddecode %s %s", blkID, tag)
+		c.Rec.Comment("error: " + firstLine(derr.Error()))
+		c.Stats.Inc("corrupt_undecodable")
+		c.Stats.Inc("corrupt." + mu.name)
+		return
 	}
+	res = RunTransition(sp, pre, nil, dec, b.Fork, m.validate, m.engine, m.engineAt, -1)
 	rule := RuleClass(res.Err)
 	if res.Panicked {
 		rule = "panic"
